@@ -256,6 +256,7 @@ func checkC02(c *Check) {
 		}
 		return g4Words(body)
 	}
+	c02OptionalMarker(c)
 	c02Native(c, words)
 	c02Ops(c, words)
 	c02Verbs(c, words)
@@ -578,5 +579,79 @@ func c02Widths(c *Check) {
 	c.Counts["integer_literal_parses"] = n
 	if n < 5 {
 		c.Undecidedf("LITERAL-WIDTH", "parses", "-", "only %d ParseInt/ParseUint calls found in the listener", n)
+	}
+}
+
+// c02OptionalMarker: a callback whose grammar rule has an optional marker
+// (`?`: the context accessor QN / E_QN) and that builds a type must consult the
+// marker whatever kind of type it built: every path from an allocation of a
+// sysl.Type in the callback to a return passes the marker test. A test that
+// sits in one arm of the switch over the kinds of type leaves the types built in
+// the other arms without their optional flag.
+func c02OptionalMarker(c *Check) {
+	p := c.P
+	n := 0
+	for _, f := range p.RepoFuncs() {
+		if fnPkgPath(f) != repoMod+"/"+parsePkg || f.Parent() != nil || !strings.HasSuffix(p.fnFile(f), "/listener_impl.go") {
+			continue
+		}
+		var tests []ssa.Instruction
+		eachCall(f, func(cl ssa.CallInstruction) {
+			cc := cl.Common()
+			name := ""
+			if cc.IsInvoke() {
+				name = cc.Method.Name()
+			} else if o := calleeObj(cl); o != nil {
+				name = o.Name()
+			}
+			if name == "QN" || name == "E_QN" {
+				tests = append(tests, cl)
+			}
+		})
+		if len(tests) == 0 {
+			continue
+		}
+		var allocs []ssa.Instruction
+		eachInstr(f, func(_ *ssa.BasicBlock, i ssa.Instruction) {
+			if al, ok := i.(*ssa.Alloc); ok && al.Heap && typeIs(al.Type().(*types.Pointer).Elem(), syslPkg, "Type") {
+				allocs = append(allocs, i)
+			}
+		})
+		if len(allocs) == 0 {
+			continue
+		}
+		n++
+		key := fnName(f) + "|optional marker consulted for every kind of type"
+		isTest := func(i ssa.Instruction) bool {
+			for _, t := range tests {
+				if t == i {
+					return true
+				}
+			}
+			return false
+		}
+		bad := ""
+		for _, al := range allocs {
+			// allocations made after the test (on the marker's own branch) are fine
+			after := false
+			for _, t := range tests {
+				if canReach(t, al, nil) && !canReach(al, t, nil) {
+					after = true
+				}
+			}
+			if after {
+				continue
+			}
+			if ret, escapes := reachAvoiding(al, isReturn, isTest); escapes {
+				bad = fmt.Sprintf("the type built at %s reaches the return at %s without the marker test", p.pos(al.Pos()), p.pos(ret.Pos()))
+			}
+		}
+		c.Cond(bad == "", "OPTIONAL-MARKER", key, p.pos(tests[0].Pos()),
+			"every type the callback builds passes the `?` test before the callback returns",
+			"the `?` marker is not consulted for every kind of type the callback builds ("+bad+"): such a declaration loses its optional flag")
+	}
+	c.Counts["callbacks_with_optional_marker"] = n
+	if n < 3 {
+		c.Undecidedf("OPTIONAL-MARKER", "callbacks", "-", "only %d callbacks that build a type and have an optional marker found: unresolved anchor", n)
 	}
 }
